@@ -50,6 +50,27 @@ def fromHex (s : String) : Option (List UInt8) :=
       | _, _ => none
   go s.toList []
 
+/-- drop a trailing `=<published value>` word (vector replay; only the harness uses it) -/
+def stripExpect (ws : List String) : List String :=
+  match ws.getLast? with
+  | some w => if w.startsWith "=" ∧ ws.length > 1 then ws.dropLast else ws
+  | none => ws
+
+/-- split a word list at the separator word `;` -/
+def splitSemi (ws : List String) : List (List String) :=
+  let r := ws.foldl (fun (acc : List (List String) × List String) w =>
+    if w = ";" then (acc.2.reverse :: acc.1, []) else (acc.1, w :: acc.2)) ([], [])
+  (r.2.reverse :: r.1).reverse
+
+/-- a whole transcript on one line: `new ; op ; op ; …` runs the operations in order and answers
+their outputs joined by `;` (used for vector replay, so that a published transcript is one
+indivisible case) -/
+def runScript {σ : Type} (step : σ → List String → σ × String) (st : σ) (ws : List String) : σ × String :=
+  let r := (splitSemi ws).foldl (fun (acc : σ × List String) op =>
+    let x := step acc.1 op
+    (x.1, x.2 :: acc.2)) (st, [])
+  (r.1, ";".intercalate r.2.reverse)
+
 def hexOrDash (bs : List UInt8) : String := if bs.isEmpty then "-" else toHex bs
 
 end Driver
